@@ -56,9 +56,45 @@ def _indent(text, n):
     return ''.join(pad + ln + '\n' if ln else '\n' for ln in text.rstrip('\n').split('\n'))
 
 
-def gen_stmt(rng, depth, cfg):
-    if depth < cfg['max_depth'] and rng.random() < cfg['p_block']:
-        tmpl = rng.choice(corpus.BLOCK_STMTS)
+_CLASS_INDEX = {}
+
+
+def class_index():
+    """{node class name: ([simple statements containing it], [block templates whose own header/structure contains it])},
+    computed once from the corpus (deterministic: corpus order)."""
+    if not _CLASS_INDEX:
+        for tmpl in corpus.SIMPLE_STMTS:
+            t = try_parse(tmpl)
+            for c in sorted({n.__class__.__name__ for n in ast.walk(t)} if t else ()):
+                _CLASS_INDEX.setdefault(c, ([], []))[0].append(tmpl)
+        for tmpl in corpus.BLOCK_STMTS:
+            src = tmpl
+            for ph, ind in (('{B}', 4), ('{B2}', 4), ('{B3}', 4), ('{BB}', 8), ('{BB2}', 8)):
+                src = src.replace(ph, ' ' * ind + 'pass\n')
+            t = try_parse(src)
+            for c in sorted({n.__class__.__name__ for n in ast.walk(t)} if t else ()):
+                if c != 'Pass':
+                    _CLASS_INDEX.setdefault(c, ([], []))[1].append(tmpl)
+        for c in ('Module', 'Load', 'Store', 'Del'):
+            _CLASS_INDEX.pop(c, None)
+    return _CLASS_INDEX
+
+
+def gen_focus_stmt(rng, cfg):
+    """A statement that contains a node of class cfg['focus_cls'] (swarm 'focus' runs: uniform over node classes instead
+    of weighted by how often the corpus happens to contain a class)."""
+    simple, block = class_index().get(cfg['focus_cls'], ((), ()))
+    if block and (not simple or rng.random() < len(block) / (len(block) + len(simple))):
+        return gen_stmt(rng, 0, dict(cfg, max_depth=max(cfg['max_depth'], 1)), tmpl=rng.choice(block))
+    if simple:
+        return rng.choice(simple)
+    return gen_stmt(rng, 0, cfg)
+
+
+def gen_stmt(rng, depth, cfg, tmpl=None):
+    if tmpl is not None or (depth < cfg['max_depth'] and rng.random() < cfg['p_block']):
+        if tmpl is None:
+            tmpl = rng.choice(corpus.BLOCK_STMTS)
         out = tmpl
         for ph, ind in (('{B}', 4), ('{B2}', 4), ('{B3}', 4), ('{BB}', 8), ('{BB2}', 8)):
             while ph in out:
@@ -186,8 +222,16 @@ def p_parens(rng, src, state):
             if isinstance(getattr(n, 'ctx', None), (ast.Store, ast.Del)) and rng.random() < 0.7:
                 continue
             cands.append(n)
+        elif isinstance(n, ast.pattern) and not isinstance(n, ast.MatchStar):
+            cands.append(n)  # group pattern '(p)'; where it is not allowed the caller's parse check rejects the result
     if not cands:
         return None
+    fc = state.get('focus_cls')
+    if fc:  # focus run: prefer the direct children of nodes of the focus class
+        kids = {id(c) for p in ast.walk(tree) if p.__class__.__name__ == fc for c in ast.iter_child_nodes(p)}
+        fcands = [n for n in cands if id(n) in kids]
+        if fcands and rng.random() < 0.6:
+            cands = fcands
     n = rng.choice(cands)
     lines = src.split('\n')
     bl = [ln.encode() for ln in lines]
@@ -522,6 +566,17 @@ def swarm_cfg(rng, **over):
         perturb_kinds=enabled,
         p_nonascii=rng.choice([0.0, 0.0, 0.1, 0.4]),
     )
+    if rng.random() < 0.3:
+        # swarm 'focus' run: a small program built around one node class chosen uniformly from all classes the corpus
+        # has; edit generators that honour cfg['focus_cls'] aim most edits at nodes of that class (all their fields)
+        cfg['focus_cls'] = fc = rng.choice(sorted(class_index()))
+        ff = [f for f in getattr(ast, fc)._fields if f not in ('ctx', 'type_ignores', 'type_comment')]
+        ff += {'Dict': ['_all'], 'MatchMapping': ['_all'], 'Compare': ['_all'], 'Call': ['_args'],
+               'ClassDef': ['_bases', '_body'], 'FunctionDef': ['_body'], 'AsyncFunctionDef': ['_body'],
+               'arguments': ['_all'], 'MatchClass': ['_attrs']}.get(fc, [])
+        cfg['focus_field'] = rng.choice(ff) if ff and rng.random() < 0.8 else None
+        cfg['n_top'] = rng.choice([(1, 1), (1, 2), (2, 3)])
+        cfg['max_depth'] = rng.choice([1, 1, 2])
     cfg.update(over)
     return cfg
 
@@ -531,17 +586,22 @@ def gen_program(rng, cfg, stats=None):
     for _attempt in range(20):
         n = rng.randint(*cfg['n_top'])
         parts = [gen_stmt(rng, 0, cfg) for _ in range(n)]
+        if cfg.get('focus_cls'):
+            parts[rng.randrange(n)] = gen_focus_stmt(rng, cfg)
         src = '\n'.join(parts) + '\n'
         if src.count('\n') > cfg['max_lines']:
             continue
         base = try_parse(src)
         if base is None:
             continue
-        state = {'ncmt': 0}
+        state = {'ncmt': 0, 'focus_cls': cfg.get('focus_cls')}
         want = ast.dump(base)
         kinds = cfg['perturb_kinds'] or sorted(PERTURBATIONS)
-        for _ in range(rng.randint(*cfg['n_perturb'])):
-            k = rng.choice(kinds)
+        todo = [rng.choice(kinds) for _ in range(rng.randint(*cfg['n_perturb']))]
+        if cfg.get('focus_cls'):  # focus run: some extra layout changes right at the focus nodes
+            todo += [k for k in ('parens', 'parens', 'break_in_brackets', 'spaces') if k in PERTURBATIONS and rng.random() < 0.4]
+            rng.shuffle(todo)
+        for k in todo:
             new = PERTURBATIONS[k](rng, src, state)
             if new is None or new == src:
                 continue
